@@ -1,0 +1,106 @@
+//go:build verif
+
+// Contracts for package txwatcher (comment-only, read by /verif/govc; never compiled
+// into the product: the build tag "verif" is not set by any build of peerswap).
+package txwatcher
+
+// ---------------------------------------------------------------------------
+// C20 (RPC watcher for bitcoind / elementsd). Ground truth is what the daemon
+// answers: the tip height (ghost tipH), the hash of the tip block (tipHash) and
+// the gettxout answer for the watched output (txoutSeen / txoutConfs / txoutBest).
+// The daemon may answer anything (any heights, any errors, stale or out-of-sync
+// data); the only assumption is that the chain height does not shrink below a
+// height the watcher was already notified of.
+// ---------------------------------------------------------------------------
+//@ ghost tipH uint64
+//@ ghost tipHash string
+//@ ghost txoutSeen bool
+//@ ghost txoutConfs uint32
+//@ ghost txoutBest string
+//@ ghost firstSeen uint32
+//@ ghost lookupOK bool
+//@ ghost reported bool
+//@ ghost csvReported bool
+//@ ghost cancelSeen bool
+
+//@ interface BlockchainRpc.GetBlockHeight
+//@ ensures result1 == nil ==> ghost.tipH == result0
+// ASSUMED (environment): block heights stay below 2^32-1
+//@ ensures result1 == nil ==> result0 < 4294967295
+//@ assigns ghost.tipH
+
+//@ interface BlockchainRpc.GetBlockHash
+//@ ensures (result1 == nil && height == uint32(ghost.tipH)) ==> ghost.tipHash == result0
+//@ ensures !(result1 == nil && height == uint32(ghost.tipH)) ==> ghost.tipHash == old(ghost.tipHash)
+//@ assigns ghost.tipHash
+
+//@ interface BlockchainRpc.GetTxOut
+//@ ensures (result1 == nil && result0 != nil) ==> (ghost.txoutSeen && ghost.txoutConfs == result0.Confirmations && ghost.txoutBest == result0.BestBlockHash)
+//@ ensures (result1 != nil || result0 == nil) ==> !ghost.txoutSeen
+//@ assigns ghost.txoutSeen, ghost.txoutConfs, ghost.txoutBest
+
+//@ interface BlockchainRpc.GetRawtransactionWithBlockHash
+//@ assigns nothing
+
+// CSV maturity at registration time: exactly what gettxout says.
+//@ func (*BlockchainRpcTxWatcher).checkTxAboveCsvHight
+//@ property C20 C07
+//@ requires l != nil
+//@ ensures @C20 mature-means-deep: result0 ==> (result1 == nil && ghost.txoutSeen && ghost.txoutConfs >= csv)
+//@ ensures @C20 answer-used: result1 == nil ==> (ghost.txoutSeen && (result0 <==> ghost.txoutConfs >= csv))
+//@ assigns ghost.txoutSeen, ghost.txoutConfs, ghost.txoutBest
+
+// the CSV callback: only for an output that is at least csv blocks deep
+//@ callback BlockchainRpcTxWatcher.csvPassedCallback
+//@ requires @C20,in:csv mature-at-registration: ghost.txoutSeen && mi(ghost.txoutConfs) >= mi(csv)
+//@ requires @C20,in:blockheight mature-on-block: has(recv.csvtxWatchList, swapId) && ghost.txoutSeen && mi(ghost.txoutConfs) >= mi(recv.csvtxWatchList[swapId].Csv)
+//@ sets ghost.csvReported = (result == nil)
+//@ assigns nothing
+
+// registration: either the callback already reported maturity (then nothing is
+// registered, so that it is not reported again), or the output is on the watch
+// list with the data given (C07: a maker's refund watch is never silently dropped)
+//@ func (*BlockchainRpcTxWatcher).AddWaitForCsvTx
+//@ property C20 C07
+//@ requires l != nil && l.csvtxWatchList != nil && !ghost.csvReported
+//@ ensures @C20 at-most-once: ghost.csvReported ==> (has(l.csvtxWatchList, swapId) == old(has(l.csvtxWatchList, swapId)))
+//@ ensures @C20,C07 registered-unless-reported: !ghost.csvReported ==> (has(l.csvtxWatchList, swapId) && l.csvtxWatchList[swapId] != nil && l.csvtxWatchList[swapId].TxId == txId && l.csvtxWatchList[swapId].TxVout == vout && l.csvtxWatchList[swapId].Csv == csv)
+
+// block scan for the confirmation height of a spent or not-yet-indexed output
+//@ func (*CommonBlockchainObserver).IsTxInRange
+//@ property C20
+//@ requires b != nil && endBlock < 4294967295
+//@ loop 0 invariant i >= startBlock
+//@ ensures @C20 found-in-range: result2 == nil ==> (result0 != "" && result1 >= startBlock && result1 <= endBlock)
+//@ ensures @C20 empty-range-is-error: endBlock < startBlock ==> result2 != nil
+//@ assigns ghost.tipHash
+
+//@ func (*CommonBlockchainObserver).IsTxInMempoolOrRange
+//@ property C20
+//@ requires b != nil
+//@ ensures @C20 first-seen-from-confirmations: (result2 == nil && ghost.txoutSeen && mi(ghost.txoutConfs) <= mi(uint32(ghost.tipH)) + 1) ==> (ghost.txoutConfs >= 1 && mi(result1) == mi(uint32(ghost.tipH)) + 1 - mi(ghost.txoutConfs))
+//@ ensures @C20 best-chain: (result2 == nil && ghost.txoutSeen) ==> ghost.txoutBest == ghost.tipHash
+//@ ensures @C20 confirmed-at-least-once: (result2 == nil && ghost.txoutSeen) ==> ghost.txoutConfs >= 1
+// ASSUMED (environment): the daemon's height is not below a height this observation loop was already notified of
+//@ ensures @trusted,in:newBlock monotone-height: uint32(ghost.tipH) >= lastrecv(newBlock)
+//@ ensures @C20 scan-within-chain: (result2 == nil && !ghost.txoutSeen && uint32(ghost.tipH) < 4294967295) ==> (result1 >= startHeight && result1 <= uint32(ghost.tipH))
+//@ sets ghost.firstSeen = result1
+//@ sets ghost.lookupOK = (result2 == nil)
+//@ assigns ghost.tipH, ghost.tipHash, ghost.txoutSeen, ghost.txoutConfs, ghost.txoutBest
+
+// the confirmation callback as used by the observation loop
+//@ callback BlockchainRpcTxWatcher.txCallback
+//@ requires @C20,in:safetyLimit confirmed-only-when-deep: err == nil ==> (ghost.lookupOK && mi(uint32(ghost.tipH)) - mi(ghost.firstSeen) + 1 >= mi(recv.requiredConfs))
+//@ requires @C20,in:safetyLimit confirmed-only-in-window: err == nil ==> mi(lastrecv(newBlock)) < mi(startingHeight) + mi(safetyLimit)
+//@ requires @C20,in:safetyLimit once: !ghost.reported
+//@ sets ghost.reported = (old(ghost.reported) || err != ErrContextCanceled)
+//@ sets ghost.cancelSeen = (old(ghost.cancelSeen) || err == ErrContextCanceled)
+//@ assigns nothing
+
+//@ func (*BlockchainRpcTxWatcher).observationLoop
+//@ property C20
+//@ requires l != nil && l.observer != nil && !ghost.reported
+// valid heights: the deadline does not wrap 32 bits, no block at height 2^32-1
+//@ requires mi(startingHeight) + mi(safetyLimit) < 4294967295
+//@ loop 0 invariant !ghost.reported
+//@ ensures @C20 reported-on-exit: ghost.reported || ghost.cancelSeen
